@@ -688,7 +688,8 @@ pub fn child(args: &Args) -> ! {
         4 => {
             let mut cfg = Cfg::disk(16 + 512);
             cfg.cpus = *rng.pick(&[4usize, 8, 16]);
-            cfg.sync_io = true;
+            cfg.sync_io = rng.chance(1, 2);
+            let uring = !cfg.sync_io;
             storeutil::ensure_device(&cfg, &path);
             let mon = hub().watch(&path);
             mon.set_recording(false);
@@ -702,7 +703,7 @@ pub fn child(args: &Args) -> ! {
             // multi-block record writes fail, single-block ones succeed: threads 0-1 keep rewriting keys with
             // big values (their batches fail and are scrubbed), threads 2-3 create small keys, let them
             // become durable and delete them (a steady supply of retirements with markers to write)
-            mon.set_plan(FaultPlan { data_min_len: Some((8192, Fault::Before)), ..Default::default() });
+            mon.set_plan(FaultPlan { data_min_len: Some((8192, Fault::Before)), uring, ..Default::default() });
             let start = 0u32;
             let stop = Arc::new(AtomicBool::new(false));
             let mut hs = Vec::new();
@@ -746,7 +747,7 @@ pub fn child(args: &Args) -> ! {
                 calls.set(calls.get() + n);
                 max_call_us.set(max_call_us.get().max(worst));
             }
-            notes.push(format!("data writes failing from the {start}-th on; faults consumed {}", mon.consumed().len()));
+            notes.push(format!("data writes failing from the {start}-th on ({}); faults consumed {}", if uring { "io_uring" } else { "sync I/O" }, mon.consumed().len()));
             mon.clear_plan();
             hub().set_sched(None);
             let mut r = String::new();
@@ -876,7 +877,10 @@ pub fn child(args: &Args) -> ! {
         _ => {
             let mut cfg = Cfg::disk(16 + 256);
             cfg.cpus = cpus;
-            cfg.sync_io = true;
+            // half of the runs write record batches through io_uring: a failed submission queue entry comes back
+            // as a failed COMPLETION that the batch writer has to reap and count like any other
+            cfg.sync_io = rng.chance(1, 2);
+            let uring = !cfg.sync_io;
             storeutil::ensure_device(&cfg, &path);
             let mon = hub().watch(&path);
             let store = Arc::new(storeutil::open(&cfg, Some(&path)).expect("open"));
@@ -887,7 +891,7 @@ pub fn child(args: &Args) -> ! {
             let _ = store.flush();
             let from = mon.calls() + rng.below(12) as u32;
             let mode = if rng.chance(1, 2) { Fault::Before } else { Fault::After };
-            mon.set_plan(FaultPlan { from: Some((from, mode)), ..Default::default() });
+            mon.set_plan(FaultPlan { from: Some((from, mode)), uring, ..Default::default() });
             let mut hs = Vec::new();
             for w in 0..3 {
                 let s = store.clone();
@@ -912,7 +916,7 @@ pub fn child(args: &Args) -> ! {
                 max_call_us.set(max_call_us.get().max(h.join().expect("thread")));
                 calls.set(calls.get() + 60);
             }
-            notes.push(format!("persistent {mode:?} failure from I/O call {from}; consumed {}", mon.consumed().len()));
+            notes.push(format!("persistent {mode:?} failure from I/O call {from} ({}); consumed {}", if uring { "io_uring" } else { "sync I/O" }, mon.consumed().len()));
             // drop with the device still failing
             let mut last = Arc::try_unwrap(store).ok();
             timed(&mut || drop(last.take()));
@@ -1058,7 +1062,7 @@ pub fn run(args: &Args) -> Report {
         if mode == "wb" {
             "write-behind without any explicit flush on stores built with 1..8 shards/workers (CPU visibility 2..16), seven patterns (small burst touching every shard; buffer-filling burst >=1024 entries per shard; overwrite/delete of already durable keys; idle vs busy neighbouring keys; TTL keys removed by the sweeper only; retirements deferred by readers parked inside reads of the old generations, then nobody writes; one write and one delete after more than 3 s of complete idleness, judged against 2.5 s on a machine a probe thread shows to be responsive): after the last call returns the engine only polls the pending-work accessor and the device trace; pending work must reach zero, every accepted write must have an extent, the durable prefix of the trace must recover to exactly the accepted state, superseded generations must be retired (independent decode) and the data area must be exactly partitioned. A stall needs 10 s without drain AND 5 s without device activity. distinct = (shard count, pattern, trace size class)"
         } else {
-            "contention scenarios, each in its own process under a 90 s watchdog whose expiry is judged by a stall signature (no thread consumed CPU for 2 s and none runnable): (0) 2-8 concurrent flush() callers + writers/deleters/readers/scanners on 6 hot keys with 3 ms delays injected at one flusher phase per run; (1) flush racing drop where the flusher thread or the 1 ms TTL sweeper holds the last reference; (2) a 24-block device filled beyond capacity, flushes while full, then deletes + flush must succeed; (3) persistent I/O failure from a seeded call on, 3 threads keep writing/deleting/flushing, then drop with the device still failing; (4) only record-data writes fail while 4 threads update/delete/flush durable keys on 2-8 workers with delays at the journal/data/marker/release points (failed-batch scrub racing retirements), then the device heals; (5) mid-call disturbances: at the scheduling points inside increment / compare-and-swap / JSON patch / insert-if-absent / update_ttl / insert on a key private to the calling thread, the key is replaced by a 1 s TTL generation and the clock jumps past its expiry, or it just expires, or is deleted or replaced - the call must return (a call that burns 20 s of its own thread's CPU time without returning is a livelock). distinct = (scenario, run)"
+            "contention scenarios, each in its own process under a 90 s watchdog whose expiry is judged by a stall signature (no thread consumed CPU for 2 s and none runnable): (0) 2-8 concurrent flush() callers + writers/deleters/readers/scanners on 6 hot keys with 3 ms delays injected at one flusher phase per run; (1) flush racing drop where the flusher thread or the 1 ms TTL sweeper holds the last reference; (2) a 24-block device filled beyond capacity, flushes while full, then deletes + flush must succeed; (3) persistent I/O failure from a seeded call on (synchronous path or io_uring completions, in turn), 3 threads keep writing/deleting/flushing, then drop with the device still failing; (4) only record-data writes fail (synchronous path or io_uring completions, in turn) while 4 threads update/delete/flush durable keys on 2-8 workers with delays at the journal/data/marker/release points (failed-batch scrub racing retirements), then the device heals; (5) mid-call disturbances: at the scheduling points inside increment / compare-and-swap / JSON patch / insert-if-absent / update_ttl / insert on a key private to the calling thread, the key is replaced by a 1 s TTL generation and the clock jumps past its expiry, or it just expires, or is deleted or replaced - the call must return (a call that burns 20 s of its own thread's CPU time without returning is a livelock). distinct = (scenario, run)"
         },
     );
     if mode == "wb" {
